@@ -1,6 +1,55 @@
-(* C04 (growing) *)
-From GF Require Import Base.Bytes Model.Mem Proofs.MemProofs.
-Theorem C04_put_frame : forall s b k body m s' r b' k',
-  put_object s b k body m = (s', r) -> (b', k') <> (b, k) -> get_object s' b' k' = get_object s b' k'.
-Proof. exact get_put_other. Qed.
-Print Assumptions C04_put_frame.
+(* C04 — Paginated listing visits every key exactly once and terminates.
+   Model: Model/Mem.v scan / skip_group, Base/SortedMap.v sm_after, Model/MemWalk.v page / walk
+   (a client that follows the continuation the server returns). *)
+From GF Require Import Base.Bytes Base.SortedMap Model.Prefix Model.Mem Model.MemWalk
+  Proofs.SortedMapFacts Proofs.WalkProofs Proofs.ListDomain.
+Open Scope Z_scope.
+
+(* never more entries than the page size (and the loop never dereferences nil) *)
+Theorem C04_page_bound : forall pre delim mk items,
+  1 <= mk -> WalkProofs.data_some items ->
+  entries (scan pre delim mk items 0 None empty_list) <= mk /\
+  lr_panic (scan pre delim mk items 0 None empty_list) = false.
+Proof. exact page_bound. Qed.
+Print Assumptions C04_page_bound.
+
+(* progress: a truncated page returns a marker that is a key of the bucket, strictly after the
+   marker it was asked with *)
+Theorem C04_progress : forall pre delim mk objs marker,
+  1 <= mk -> sorted objs -> WalkProofs.data_some objs -> ~ In [] (map fst objs) ->
+  let r := page pre delim mk objs marker in
+  lr_truncated r = true ->
+  In (lr_next r) (map fst objs) /\ (marker <> [] -> bltb marker (lr_next r) = true) /\ lr_next r <> [].
+Proof. exact page_progress_nonempty_keys. Qed.
+Print Assumptions C04_progress.
+
+(* the walk terminates within |keys|+1 pages (the fuel is part of the statement) and the
+   concatenation of its pages is exactly the unpaginated listing: every key once, in order, and
+   every common prefix once; IsTruncated is false on the last page *)
+Theorem C04_walk_complete : forall pre delim mk objs,
+  1 <= mk -> sorted objs -> WalkProofs.data_some objs -> ~ In [] (map fst objs) ->
+  pre_ok delim pre -> Forall (key_ok delim) (map fst objs) ->
+  exists pages,
+    walk (S (length objs)) pre delim mk objs [] = Some pages /\
+    flat_map (fun r => map fst (lr_contents r)) pages = map fst (lr_contents (unpaged pre delim objs)) /\
+    flat_map lr_prefixes pages = lr_prefixes (unpaged pre delim objs) /\
+    Forall (fun r => entries r <= mk) pages /\
+    (exists r, last (map Some pages) None = Some r /\ lr_truncated r = false).
+Proof. exact walk_complete_domain. Qed.
+Print Assumptions C04_walk_complete.
+
+(* any marker / start-after value, present in the bucket or not: only keys strictly after it *)
+Theorem C04_any_start_after : forall pre delim mk objs marker k body,
+  marker <> [] -> sorted objs -> WalkProofs.data_some objs ->
+  In (k, body) (lr_contents (page pre delim mk objs marker)) -> bltb marker k = true.
+Proof. exact page_after_marker. Qed.
+Print Assumptions C04_any_start_after.
+
+(* the empty key is excluded for a reason: with it the walk would never terminate (it is not
+   reachable through the HTTP API, which routes an empty object name to the bucket handlers) *)
+Theorem C04_empty_key_refuted :
+  exists objs, sorted objs /\ WalkProofs.data_some objs /\ forall n, walk n [] None 1 objs [] = None.
+Proof.
+  exists cex_objs. destruct walk_empty_key_refuted as (H1 & H2 & _ & _ & _ & H6). auto.
+Qed.
+Print Assumptions C04_empty_key_refuted.
